@@ -3,6 +3,7 @@ import argparse
 import importlib
 import json
 import os
+import shutil
 import sys
 import time
 import traceback
@@ -42,6 +43,7 @@ def main(argv=None):
     if a.replay:
         return replay(pid, a.replay)
 
+    shutil.rmtree(os.path.join(core.OUT, 'replays', pid), ignore_errors=True)   # replays describe this run only
     t0 = time.time()
     cap_s = float(os.environ.get('VERIF_CAP_S', 900 if a.tier == 'quick' else 6 * 3600))
     mod, import_tb = _load(pid)
